@@ -85,7 +85,7 @@ func report(a RunArgs, eng Engine, engName string, info Info, results []*Result,
 			}
 		}
 		for k, n := range r.Events {
-			if isMax[k] {
+			if isMax[k] || strings.HasPrefix(k, "max_") {
 				if n > events[k] {
 					events[k] = n
 				}
